@@ -17,13 +17,13 @@ import (
 // It only exists under the "verif" build tag.
 type VerifHooks struct {
 	// Counters (always maintained).
-	Fetches, FetchGrows, FetchCompactions   atomic.Int64 // decoderState.fetch
-	Flushes, FlushPartial                   atomic.Int64 // encoderState.Flush reached the writer / writer accepted less than offered
-	FlushLenBucket                          [9]atomic.Int64 // len(Buf)*8/cap(Buf) at flush
-	UnwriteMember, UnwriteName              atomic.Int64 // UnwriteEmptyObjectMember / UnwriteOnlyObjectMemberName returned having retracted
-	UnwriteAfterFlush                       atomic.Int64 // ... while baseOffset > 0 (bytes of the stream already flushed)
-	PoolGets, PoolPuts, PoolPoisonedBytes   atomic.Int64
-	InvariantFailures                       atomic.Int64
+	Fetches, FetchGrows, FetchCompactions atomic.Int64    // decoderState.fetch
+	Flushes, FlushPartial                 atomic.Int64    // encoderState.Flush reached the writer / writer accepted less than offered
+	FlushLenBucket                        [9]atomic.Int64 // len(Buf)*8/cap(Buf) at flush
+	UnwriteMember, UnwriteName            atomic.Int64    // UnwriteEmptyObjectMember / UnwriteOnlyObjectMemberName returned having retracted
+	UnwriteAfterFlush                     atomic.Int64    // ... while baseOffset > 0 (bytes of the stream already flushed)
+	PoolGets, PoolPuts, PoolPoisonedBytes atomic.Int64
+	InvariantFailures                     atomic.Int64
 
 	// Poison makes put* overwrite every buffer the pooled coder retains with 0xA5,
 	// so that anything still aliasing a recycled buffer is visibly corrupted.
